@@ -33,6 +33,17 @@ TypeOK == IsHermitian(Vx, Len(E)) /\ IsHermitian(Vy, Len(E)) /\ den > 0
 SumRuleZero == SumRuleHolds(E, om)
 Additive    == AdditiveHolds(E, Vx, Vy, om, Variant)
 Antisym     == AntisymHolds(E, Vx, Vy, om, Variant)
+(* the sum rule over multiplets when two neighbouring levels are made degenerate (three bands: the doublet and the third
+   band have the same denominator, so the numerators must cancel; two bands: the doublet is everything, its trace is 0) *)
+DegenSumRule ==
+   \A j \in 1..(Len(E) - 1) :
+      LET Ed == Collapse(E, j)
+          m == {j, j + 1}
+          rest == (1..Len(E)) \ m
+      IN IF Len(E) = 2 THEN OmegaNumIO(Ed, Vx, Vy, m) = 0
+         ELSE IF Len(E) = 3 THEN /\ DenIO(Ed, m) = DenIO(Ed, rest)
+                                 /\ OmegaNumIO(Ed, Vx, Vy, m) + OmegaNumIO(Ed, Vx, Vy, rest) = 0
+         ELSE TRUE
 (* non-vacuity: some state has a non-zero curvature (checked by the harness on the dump, and here as a property that
    must be VIOLATED when asked for) *)
 AllZero == \A n \in 1..Len(E) : om[n] = 0
